@@ -1,0 +1,5 @@
+//go:build !verif
+
+package open_game_manager
+
+func verifHook(m *openGameManager, point string) {}
